@@ -89,16 +89,18 @@ theorem C19_enc_anonymous (P : Prims) (bs : Nat) (v : Version) (rs : List Encryp
 /-- **a hidden recipient's key enters only through boxes made for it**: replace
     the hidden recipients' keys by others for which the two boxing keys (the
     ephemeral and the sender's) produce the same boxes, and the message is the
-    same, byte for byte -/
+    same, byte for byte (the lists are related position by position: equal
+    lengths and the relation on every pair of `rs.zip rs'`) -/
 theorem C19_enc_hidden_noninterference (P : Prims) (bs : Nat) (v : Version) (sender : Option Bytes)
     (rs rs' : List Encrypt.Recipient) (eph pk pt : Bytes)
     (hck : Encrypt.checkReceivers rs = .ok ()) (hck' : Encrypt.checkReceivers rs' = .ok ())
-    (hsame : List.Forall₂ (fun r r' =>
+    (hlen : rs.length = rs'.length)
+    (hsame : ∀ r r', (r, r') ∈ rs.zip rs' →
         r.hidden = r'.hidden ∧ (r.hidden = false → r.pub = r'.pub) ∧
         (∀ n m, P.box eph r.pub n m = P.box eph r'.pub n m) ∧
-        (∀ n m, P.box (sender.getD eph) r.pub n m = P.box (sender.getD eph) r'.pub n m)) rs rs') :
+        (∀ n m, P.box (sender.getD eph) r.pub n m = P.box (sender.getD eph) r'.pub n m)) :
     Encrypt.sealWith P bs v sender rs eph pk pt = Encrypt.sealWith P bs v sender rs' eph pk pt :=
-  Proofs.enc_hidden_noninterference P bs v sender rs rs' eph pk pt hck hck' hsame
+  Proofs.enc_hidden_noninterference P bs v sender rs rs' eph pk pt hck hck' hlen hsame
 
 /-! ## signcryption -/
 
@@ -116,12 +118,13 @@ theorem C19_sc_kid_slots (P : Prims) (sender : Option Bytes) (eph pk : Bytes) (r
 theorem C19_sc_box_noninterference (P : Prims) (bs : Nat) (sender : Option Bytes)
     (rs rs' : List Signcrypt.Recipient) (eph pk pt : Bytes)
     (hck : Signcrypt.checkReceivers rs [] = .ok ()) (hck' : Signcrypt.checkReceivers rs' [] = .ok ())
-    (hsame : List.Forall₂ (fun r r' => match r, r' with
+    (hlen : rs.length = rs'.length)
+    (hsame : ∀ r r', (r, r') ∈ rs.zip rs' → match r, r' with
         | .box p, .box p' => Signcrypt.derivedKeyFromBoxKeys P p eph = Signcrypt.derivedKeyFromBoxKeys P p' eph
         | .sym k i, .sym k' i' => k = k' ∧ i = i'
-        | _, _ => False) rs rs') :
+        | _, _ => False) :
     Signcrypt.sealWith P bs sender rs eph pk pt = Signcrypt.sealWith P bs sender rs' eph pk pt :=
-  Proofs.sc_box_noninterference P bs sender rs rs' eph pk pt hck hck' hsame
+  Proofs.sc_box_noninterference P bs sender rs rs' eph pk pt hck hck' hlen hsame
 
 /-- every header field other than the sender secretbox is independent of the
     signing key -/
